@@ -299,10 +299,12 @@ def BBox.fromXY (x y : Rat × Rat) (crs : Option Nat) : BBox Rat :=
 def BBox.fromPoints (p1 p2 : Rat × Rat) (crs : Option Nat) : BBox Rat :=
   BBox.fromXY (p1.1, p2.1) (p1.2, p2.2) crs
 
-/-- `BoundingBox.from_transform(shape, transform, crs)`: the box through the images of the pixel
-corners `(0, 0)` and `(nx, ny)` only. -/
+/-- `BoundingBox.from_transform(shape, transform, crs)` (as on HEAD, after the repair that made it
+cover rotated footprints): bounding box of the images of the four pixel corners
+`(0,0), (0,ny), (nx,ny), (nx,0)`. -/
 def BBox.fromTransform (ny nx : Int) (A : Aff) (crs : Option Nat) : BBox Rat :=
-  BBox.fromPoints (A.apply (0, 0)) (A.apply ((nx : Rat), (ny : Rat))) crs
+  bboxOfPoints (A.apply (0, 0))
+    [A.apply (0, (ny : Rat)), A.apply ((nx : Rat), (ny : Rat)), A.apply ((nx : Rat), 0)] crs
 
 /-! ### IEEE specials in `bbox_union` / `bbox_intersection`
 
@@ -332,8 +334,8 @@ def PyF.lt : PyF → PyF → Bool
 instance : Min PyF := ⟨fun a b => if PyF.lt b a then b else a⟩
 instance : Max PyF := ⟨fun a b => if PyF.lt a b then b else a⟩
 
-/-- GeoBox neighbours / padding used by the composition theorems are taken from the C02 model
-(`OdcGeo.C02.pad`, `.left`, `.right`, `.top`, `.bottom`, `.flipx`, `.flipy`, `.crop`). -/
+/-- `GeoBox.pad(padx, pady=None)`  (geobox.py:938-952).  Neighbours, flips and `gbox[roi]` are taken
+from the C02 model in `Model/C16Link.lean`. -/
 def GeoBox.pad (g : GeoBox) (padx : Int) (pady : Option Int) : GeoBox :=
   let py := match pady with | none => padx | some v => v
   ⟨g.ny + py * 2, g.nx + padx * 2, g.aff * Aff.translation (-(padx : Rat)) (-(py : Rat)), g.crs⟩
